@@ -207,10 +207,11 @@ def oracles(spec: dict, inputs: list[dict], r: dict) -> list[dict]:
                 pass
             else:
                 V.append(_v("stdout-pure", f"output-on-failure|faulted", f"{ps['argv']} exited {code} after {faults} with stdout {out[:160]!r}"))
-        if code == 0 and any_short and not _wellformed(out, ps["fmt"]):
+        if code == 0 and any_short and ps["fmt"] == "json" and not _wellformed(out, ps["fmt"]):
+            # (CSV carries no integrity marker: after a torn read of the CSV file any prefix is all plan can emit)
             V.append(_v("content", "malformed|short", f"{ps['argv']}: exit 0 with malformed stdout after a torn read"))
     # ---------------- [channel]
-    if spec.get("mode") == "channels" and len(outs) == 3 and not any(p["faults"] for p in r["procs"]):
+    if spec.get("mode") == "channels" and len(outs) == 3 and not clocky_run and not any(p["faults"] for p in r["procs"]):
         ref = outs[0]
         for ch, code, out in outs[1:]:
             if (code, out) != (ref[1], ref[2]):
